@@ -86,7 +86,7 @@ inline bool backtrace_S(Rng& r, uint64_t idx)
   for (uint32_t l = 0; l < nl; ++l) owner.push_back(&run.spawn());
   World* wp = &w;
   bool lag = r.chance(1, 2); // let the backend lag behind (it is drained before anything that changes the flush level)
-  uint64_t wraps = 0, flushes = 0, wrapped_flushes = 0, reinit = 0, stores = 0, dropped = 0;
+  uint64_t wraps = 0, flushes = 0, wrapped_flushes = 0, reinit = 0, stores = 0, dropped = 0, dynamic_ordinary = 0;
   std::map<std::pair<uint32_t, uint32_t>, std::pair<uint32_t, bool>> bt_info; // (tid, seq) -> (payload length, named placeholders)
   auto settle = [&] { run.drain("backtrace_S"); };
   auto init = [&](uint32_t l, uint32_t cap, quill::LogLevel fl)
@@ -129,7 +129,21 @@ inline bool backtrace_S(Rng& r, uint64_t idx)
       quill::LogLevel lvl = r.pick({quill::LogLevel::TraceL1, quill::LogLevel::Debug, quill::LogLevel::Info, quill::LogLevel::Warning, quill::LogLevel::Error, quill::LogLevel::Critical});
       uint32_t seq = sp->seq++;
       auto rp = std::make_shared<int>(1);
-      run.run_on(*sp, [wp, sp, l, seq, lvl, rp] { std::vector<Issue> tmp; *rp = issue_std(tmp, wp->loggers[l].lg, static_cast<uint16_t>(l), lvl, sp->tid, seq, 3).res; }, "log");
+      // one ordinary statement in three supplies its level at run time: it triggers the replay iff THAT level reaches
+      // the flush level, exactly like a static one
+      bool const dyn = r.chance(1, 3);
+      if (dyn) ++dynamic_ordinary;
+      run.run_on(*sp, [wp, sp, l, seq, lvl, rp, dyn]
+                 {
+                   if (!dyn) { std::vector<Issue> tmp; *rp = issue_std(tmp, wp->loggers[l].lg, static_cast<uint16_t>(l), lvl, sp->tid, seq, 3).res; return; }
+                   std::string const pl = payload(sp->tid, seq, 3);
+                   std::string_view const sv{pl};
+                   uint32_t const len = 3;
+                   int res = -1;
+                   VF_LOG_DYN(res, wp->loggers[l].lg, lvl, "{}|{}|{}|{}", sp->tid, seq, len, sv);
+                   *rp = res;
+                 },
+                 "log");
       if (*rp != 1) { ++dropped; continue; }
       m.expected.emplace_back(sp->tid, seq);
       if (lvl >= m.flush_level)
@@ -201,6 +215,7 @@ inline bool backtrace_S(Rng& r, uint64_t idx)
     run.finish_workers();
     run.poll();
   }
+  stat_add("backtrace_dynamic_level_ordinary_statements", static_cast<long long>(dynamic_ordinary));
   stat_add("backtrace_scenarios");
   stat_add("backtrace_stores", static_cast<long long>(stores));
   stat_add("backtrace_flushes", static_cast<long long>(flushes));
@@ -445,9 +460,9 @@ inline bool faults_S(Rng& r, uint64_t idx)
   // history of N statements; every (position, kind) and every (sink, call index) is enumerated across scenarios
   uint32_t const N = 12;
   constexpr uint64_t KINDS = 11;
-  bool const enumerate = idx < 12 * KINDS + 3 * 14 * 2;
+  bool const enumerate = idx < 12 * KINDS + 3 * 14 * 3;
   int fault_pos = -1, fault_kind = 0, sink_fault = -1, sink_call = -1;
-  bool sink_fault_flush = false;
+  bool sink_fault_flush = false, sink_fault_flush_persistent = false;
   if (enumerate)
   {
     if (idx < 12 * KINDS) { fault_pos = static_cast<int>(idx / KINDS); fault_kind = static_cast<int>(idx % KINDS) + 1; }
@@ -456,7 +471,8 @@ inline bool faults_S(Rng& r, uint64_t idx)
       uint64_t k = idx - 12 * KINDS;
       sink_fault = static_cast<int>(k % 3);
       sink_call = static_cast<int>((k / 3) % 14);
-      sink_fault_flush = (k / 42) == 1;
+      sink_fault_flush = (k / 42) >= 1;
+      sink_fault_flush_persistent = (k / 42) == 2; // from that call on every flush of the sink throws
     }
   }
   std::vector<std::pair<int, int>> faults; // sampled: several simultaneous faults
@@ -464,11 +480,12 @@ inline bool faults_S(Rng& r, uint64_t idx)
   {
     uint32_t nf = static_cast<uint32_t>(r.range(1, 4));
     for (uint32_t i = 0; i < nf; ++i) faults.emplace_back(static_cast<int>(r.below(N * 2)), static_cast<int>(r.pick({1, 2, 3, 4, 5, 6, 9, 10, 11})));
-    if (r.chance(1, 2)) { sink_fault = static_cast<int>(r.below(3)); sink_call = static_cast<int>(r.below(20)); sink_fault_flush = r.chance(1, 3); }
+    if (r.chance(1, 2)) { sink_fault = static_cast<int>(r.below(3)); sink_call = static_cast<int>(r.below(20)); sink_fault_flush = r.chance(1, 3); sink_fault_flush_persistent = sink_fault_flush && r.chance(1, 2); }
   }
   if (sink_fault >= 0)
   {
-    if (sink_fault_flush) w.sinks[sink_fault]->throw_on_flush.store(sink_call);
+    if (sink_fault_flush_persistent) w.sinks[sink_fault]->throw_on_flush_from.store(sink_call);
+    else if (sink_fault_flush) w.sinks[sink_fault]->throw_on_flush.store(sink_call);
     else w.sinks[sink_fault]->throw_on_write.store(sink_call);
   }
   uint32_t const total = enumerate ? N : N * 2;
@@ -510,6 +527,30 @@ inline bool faults_S(Rng& r, uint64_t idx)
   SW* ap = &a;
   if (!a.w->parked()) run.run_on(a, [wp] { tl_control_op = true; wp->loggers[0].lg->flush_log(0); tl_control_op = false; }, "flush_log");
   bool ok = !run.failed && run.drain("faults_S");
+  if (ok && sink_fault_flush)
+  {
+    // flush_log() has returned: a sink whose flush throws (once, or from some call on for good) must not keep the
+    // OTHER sinks from being flushed - each of them has a completed flush after its last write
+    auto evs = recorder().snapshot();
+    std::map<uint32_t, uint64_t> last_w, last_f;
+    for (auto const& e : evs)
+    {
+      if (e.sink < w.sink_id_base || e.sink >= w.sink_id_base + w.sinks.size()) continue;
+      if (e.kind == 'w') last_w[w.sink_index_of(e.sink)] = e.g;
+      if (e.kind == 'f') last_f[w.sink_index_of(e.sink)] = e.g;
+    }
+    for (auto const& kv : last_w)
+    {
+      if (static_cast<int>(kv.first) == sink_fault) continue;
+      if (!last_f.count(kv.first) || last_f[kv.first] < kv.second)
+      {
+        violation("C10", "healthy-sink-not-flushed-after-another-sinks-flush-threw", J{}.unum("sink", kv.first).num("throwing_sink", sink_fault).num("from_flush_call", sink_call).boolean("persistent", sink_fault_flush_persistent).str("scenario", "faults_S").raw("cfg", w.describe()));
+        ok = false;
+        break;
+      }
+    }
+    stat_add("faults_flush_throw_scenarios_judged");
+  }
   if (ok)
   {
     uint32_t pseq = a.seq++;
